@@ -329,6 +329,44 @@ void World::service_contexts() {
   hit_cap = true;
 }
 
+void World::nested_wait(int epfd, uint32_t timeout_ms) {
+  uint64_t deadline = now + timeout_ms;
+  nested++;
+  for (unsigned guard = 0; guard < 100000; guard++) {
+    bool readable = false;
+    for (auto &kv : socks) {
+      VSock *v = kv.second.get();
+      if (v->epfd != epfd) continue;
+      if ((v->ep_events & EPOLLIN) && (!v->rxq.empty() || !v->rbytes.empty() || v->eof || !v->pending.empty())) readable = true;
+    }
+    if (readable) break;
+    uint64_t next = queue.empty() ? UINT64_MAX : queue.begin()->at;
+    for (coap_context_t *c : contexts) {
+      if (c->epfd == epfd) continue;
+      unsigned wt = coap_io_prepare_epoll(c, (coap_tick_t)now);
+      if (wt) next = std::min<uint64_t>(next, now + wt);
+    }
+    if (!queue.empty() && queue.begin()->at <= now) next = now;
+    if (next > deadline) { now = deadline; break; }
+    if (next > now) now = next;
+    while (!queue.empty() && queue.begin()->at <= now) {
+      Pending p = *queue.begin();
+      queue.erase(queue.begin());
+      if (p.kind == 0) route(p.d);
+      else if (p.kind == 1) { if (p.fn) p.fn(); }
+      else if (p.kind == 3) { VSock *v = by_fd(p.fd); if (v) { v->eof = true; activity = true; } }
+      else if (p.kind == 2) { VSock *v = by_fd(p.fd); if (v) { v->rbytes.insert(v->rbytes.end(), p.bytes.begin(), p.bytes.end()); activity = true; } }
+    }
+    std::vector<coap_context_t *> cs = contexts;
+    for (coap_context_t *c : cs) {
+      if (std::find(contexts.begin(), contexts.end(), c) == contexts.end() || c->epfd == epfd) continue;
+      coap_io_process(c, COAP_IO_NO_WAIT);
+    }
+    if (++steps > 4000000) { hit_cap = true; break; }
+  }
+  nested--;
+}
+
 bool World::run(uint64_t until, unsigned max_steps) {
   while (true) {
     if (++steps > max_steps) { hit_cap = true; return false; }
@@ -435,8 +473,21 @@ int __wrap_epoll_wait(int epfd, struct epoll_event *events, int maxevents, int t
       n++;
     }
   }
-  // timeout > 0 is only reached from libcoap-internal blocking waits; the simulated world never blocks
-  (void)timeout;
+  // timeout > 0 is only reached from libcoap-internal blocking waits (e.g. coap_client_delay_first() inside coap_send()): the caller
+  // sleeps, the rest of the world goes on - deliveries, the other contexts, virtual time - until something is readable here or the
+  // time is up
+  if (n == 0 && timeout > 0 && W->nested == 0) {
+    W->nested_wait(epfd, (uint32_t)timeout);
+    for (auto &kv : W->socks) {
+      VSock *v = kv.second.get();
+      if (v->epfd != epfd || n >= maxevents) continue;
+      uint32_t ev = 0;
+      bool readable = !v->rxq.empty() || !v->rbytes.empty() || v->eof || !v->pending.empty();
+      if ((v->ep_events & EPOLLIN) && readable) ev |= EPOLLIN;
+      if ((v->ep_events & EPOLLOUT) && (v->kind == VSock::TCP_CONN || v->kind == VSock::UDP_CONN || v->kind == VSock::UDP_BOUND)) ev |= EPOLLOUT;
+      if (ev) { events[n].events = ev; events[n].data.ptr = v->ep_ptr; n++; }
+    }
+  }
   return n;
 }
 
@@ -590,6 +641,8 @@ int __wrap_coap_socket_accept_tcp(coap_socket_t *server, coap_socket_t *new_clie
     v->remote = pc.first->local;
     v->pair = pc.first;
     pc.first->pair = v;
+    v->rbytes.insert(v->rbytes.end(), pc.first->early_tx.begin(), pc.first->early_tx.end());
+    pc.first->early_tx.clear();
   } else {
     v->remote = pc.second->addr;
     v->speer = pc.second;
@@ -622,7 +675,20 @@ ssize_t __real_send(int fd, const void *buf, size_t len, int flags);
 ssize_t __wrap_send(int fd, const void *buf, size_t len, int flags) {
   VSock *v = W ? W->by_fd(fd) : nullptr;
   if (!v || v->kind != VSock::TCP_CONN) return __real_send(fd, buf, len, flags);
-  if (!v->pair && !v->speer) { errno = EPIPE; return -1; }
+  if (!v->pair && !v->speer) {
+    // connected but not accepted yet: like the kernel, keep the bytes until the listener takes the connection
+    bool in_backlog = false;
+    for (auto &kv : W->socks) if (kv.second->kind == VSock::TCP_LISTEN) for (auto &pc : kv.second->pending) if (pc.first == v) in_backlog = true;
+    if (!in_backlog) { errno = EPIPE; return -1; }
+    const uint8_t *eb = (const uint8_t *)buf;
+    TraceEv ee;
+    ee.t = W->now; ee.kind = EV_STREAM_TX; ee.src = v->local; ee.dst = v->remote; ee.val = len;
+    if (W->record_payloads) ee.data.assign(eb, eb + len);
+    W->trace.push_back(ee);
+    v->early_tx.insert(v->early_tx.end(), eb, eb + len);
+    W->activity = true;
+    return (ssize_t)len;
+  }
   size_t n = std::min(len, v->write_budget);
   if (n == 0 && len) { v->write_budget = (size_t)-1; errno = EAGAIN; return -1; }
   if (v->write_budget != (size_t)-1) v->write_budget = (size_t)-1;  // one-shot plan
